@@ -537,6 +537,26 @@ def strBufRun (c : StrBufCfg) (s : StrBufState) : List Nat → Outcome StrBufSta
 
 def strBufInit (c : StrBufCfg) : StrBufState := ⟨0, c.room, true⟩
 
+/-! ## interface resolution: `SCOPEfind_for_rename` over the USE graph -/
+
+mutual
+/-- look-up of a name that no schema on the way declares, starting in schema `s`; `h s` = the schemas `s` names in
+whole-schema USE clauses (any graph); `path` = the schemas whose USE clauses are being followed (the C call chain).
+`guard` = a schema that is already on the path is not searched again.  `none` = out of fuel (the C recursion does not
+return); `some false` = "not found". -/
+def renameSearch (guard : Bool) (h : Hier) : Nat → List Nat → Nat → Option Bool
+  | 0, _, _ => none
+  | fuel + 1, path, s =>
+    if guard && decide (s ∈ path) then some false
+    else renameSearchList guard h fuel (s :: path) (h s)
+def renameSearchList (guard : Bool) (h : Hier) : Nat → List Nat → List Nat → Option Bool
+  | _, _, [] => some false
+  | fuel, path, c :: rest =>
+    match renameSearch guard h fuel path c with
+    | none => none
+    | some _ => renameSearchList guard h fuel path rest
+end
+
 /-! ## nesting depth of expressions, statements, types, supertype expressions -/
 
 mutual
